@@ -46,10 +46,10 @@ static void* worker(void* arg)
     for (int r = 0; r < rounds; r++) {
         /* shared arena */
         if (mode & 1) {
-        size_t n = 1 + rnd(&s) % 200;
+        size_t n = rnd(&s) % 8 == 0 ? 0 : 1 + rnd(&s) % 200;         /* zero-sized requests too (the rewind-point idiom) */
         unsigned char* p = gp_mem_alloc((GPAllocator*)shared, n);
         memset(p, 0x40 + t->id, n);
-        if (t->nb < MAXB) { t->blocks[t->nb].p = p; t->blocks[t->nb].n = n; t->nb++; }
+        if (n && t->nb < MAXB) { t->blocks[t->nb].p = p; t->blocks[t->nb].n = n; t->nb++; }   /* an empty block owns no byte */
         }
         /* locale cache */
         int c = rnd(&s) % NCODES;
